@@ -23,7 +23,13 @@
 (*         -1 = it reads until Read fails                                  *)
 (*   bstop the same for the branch chain                                   *)
 (* Two constants describe repairs, FALSE = the code as it is:              *)
-(*   ClosePipeOnReturn  tee.Handle closes pw when next.Handle has returned *)
+(*   ClosePipeOnReturn  pw is closed when the CONNECTION is closed (the    *)
+(*                      model's Return step = "the chain has returned and  *)
+(*                      the server has closed the connection").  Not: when *)
+(*                      next.Handle returns - in a non-terminal route it   *)
+(*                      returns at once and matching goes on, on the tee's *)
+(*                      connection; a `defer pw.Close()` in tee.Handle     *)
+(*                      breaks every later read (seeded change C02-m12)    *)
 (*   BranchEndDrains    when the branch chain has returned, what is still  *)
 (*                      written to the pipe is discarded (io.Copy(io.Discard, pr)) *)
 (***************************************************************************)
